@@ -67,6 +67,8 @@ def run(ctx):
         ctx.guard(recursion, ctx, cfg, fs)
         ctx.guard(group_flag, ctx, cfg, fs)
         ctx.guard(purity, ctx, cfg, fs)
+        import c08, c09
+        ctx.guard(c08.keep_only, ctx, lambda: c09.tokenizer(ctx, cfg, fs), lambda o: 'pos-only' in o.key, 'E.exit-sites')
 
 # Sites are budgeted per CLASS, not per spelling: `&s[..i]` and `s.split_at(i)`, `v[i]` through the Index trait and a
 # bounds-checked array access, `.unwrap()` and `match .. None => unreachable!()` are the same obligation.
